@@ -9,7 +9,9 @@
 (*        record (digest) is unchanged; neff = number of observable effects      *)
 (*        on behalf of / towards u in this step                                  *)
 (*   LoginOk(u, addr, t)     login accepted, tunnel address addr assigned        *)
-(*   Rebind(u, src, t)       a raw-mode login was accepted from src              *)
+(*   Rebind(u, src, t, proof) a raw-mode login was accepted from src; proof = it *)
+(*                           carried the right response for u's current         *)
+(*                           challenge (only such a login may rebind a session) *)
 (*   Down(u, dst, to, t)     a downstream datagram for session u carried the     *)
 (*                           payload of a packet whose IP destination is dst,    *)
 (*                           sent to source address `to`                         *)
@@ -62,7 +64,8 @@ LoginOk(u, a, t) == /\ u \in Users /\ inuse[u]
                     /\ \A v \in Users \ {u} : (inuse[v] /\ logged[v]) => addr[v] # a   \* addresses are not shared
                     /\ UNCHANGED <<inuse, bound, lastAcc, lastAny>>
 
-Rebind(u, src, t) == /\ u \in Users /\ inuse[u] /\ logged[u]
+Rebind(u, src, t, proof) == /\ u \in Users /\ inuse[u] /\ logged[u]
+                     /\ proof
                      /\ bound' = [bound EXCEPT ![u] = src]
                      /\ UNCHANGED <<inuse, logged, addr, lastAcc, lastAny>>
 
